@@ -159,6 +159,21 @@ Theorem C04_model_meets_spec : forall t len v,
   roundtrip_ok t len v (enc_value t v len) (match enc_value t v len with Ok b => Some (dec_value t b) | _ => None end) = true.
 Proof. exact model_meets_spec. Qed.
 
+(* (16b) "encoding the value": for every call on the value, and the caller's value stays the value.  Every run calls
+   DataType.Bytes twice on the SAME Go value object and renders the object before and after; the model (a function of an
+   immutable value) answers the constant observation (1 1) = (second outcome equals the first, object unchanged),
+   compared exactly with the implementation, and the specification of fn 1 demands it on every case. *)
+Theorem C04_model_pure : forall i v, value_of_tree (t_nth 2 i) = Some v -> pure_ok (t_nth 2 (value_run 1 i)) = true.
+Proof. exact roundtrip_model_pure. Qed.
+(* non-vacuity: the model's output for -123.45 as NUMN meets the specification; the same round trip with a second
+   encoding that differs / a changed value object does not *)
+Example C04_ex_second_call :
+  let i := TL [TI t_NUMN; TI 0; tree_of_value (VDec 5 2 (Some (-12345)))] in
+  let pos := tree_of_value (VDec 5 2 (Some 12345)) in
+  value_spec 1 i (value_run 1 i) = true /\
+  value_spec 1 i (TL [t_nth 0 (value_run 1 i); t_nth 1 (value_run 1 i); TL [TI 0; TI 0; TL [TI 0; TB [0; 48; 57]]; pos; pos]]) = false.
+Proof. split; vm_compute; reflexivity. Qed.
+
 (* ------------------------------------------------------------------------------------------------------------
    PACKAGE LEG: "The same holds when the value travels inside a parameter or row package together with its format."
    A column is (format, status byte, [text pointer, timestamp,] Go value).  PkgLeg.col_claim is the boolean domain:
@@ -313,6 +328,7 @@ Print Assumptions C04_null_decimal.
 Print Assumptions C04_civil_inverse.
 Print Assumptions C04_ref_index_is_walk.
 Print Assumptions C04_model_meets_spec.
+Print Assumptions C04_model_pure.
 Print Assumptions C04_pkg_roundtrip.
 Print Assumptions C04_pkg_model_meets_spec.
 Print Assumptions C04_pkg_txtptr_refuted.
